@@ -327,8 +327,10 @@ impl Property for C12 {
                     expect = if v < 0 {
                         Expect::Fail
                     } else if v > 0 && e < m.seq {
+                        // granting an allowance that is already expired: the statement only requires that it is
+                        // worthless, not that the grant is refused (today it is refused)
                         cx.label("approve_already_expired");
-                        Expect::Fail
+                        Expect::Either
                     } else if matches!(exp, Exp::Far | Exp::Max) && v > 0 {
                         Expect::Either
                     } else {
